@@ -9,7 +9,11 @@ From GV Require Import Pool.Model Pool.Observe Pool.Monitors Pool.Inv Pool.Reduc
    For every harness-legal history (LegalRun.legal: no operation answered RBadOp) and
    every map-iteration oracle.  Guard (the same as C02's): fewer than 2^31 calls are
    placed -- streamsCnt is an int32 and the swap clause compares the channel's stream
-   count across the swap event. *)
+   count across the swap event.
+   No guard on the back-off window: the trigger clause of the monitor compares with the
+   intended window  unresponsive_detection_ms * 2^refreshCnt  for every threshold and
+   every refresh count, whenever the clock is an int64 count of nanoseconds
+   (0 <= lastResp, now <= 2^63 - 1: that guard is part of the monitor). *)
 Theorem C07_holds : forall raw ops,
   legal raw ops ->
   Forall (fun s => Z.of_nat (length (b_picks s)) < 2147483648)%Z (run_states raw init_bal ops) ->
@@ -24,9 +28,61 @@ Theorem C07_holds_short : forall raw ops,
 Proof. exact InvC07.C07_holds_short. Qed.
 Print Assumptions C07_holds_short.
 
+(* "when and only when": a Done of a call that hit its client-side deadline and started
+   after the last response makes a creation attempt iff enough calls timed out, the last
+   response is older than  unresponsive_detection_ms * 2^refreshCnt  (window_ns, unbounded)
+   and no refresh is in flight.  Hypotheses about numbers: the clock is an int64 count of
+   nanoseconds (0 <= lastResp, now <= MaxInt64 = 2^63 - 1) and refreshCnt >= 0. *)
+Theorem C07_refresh_iff : forall s p oc r c,
+  b_cfg s = Some c -> InvU s -> b_undet s = true ->
+  get_slot s (pk_slot p) = Some r ->
+  client_dl (b_now s) oc (pk_deadline p) = true ->
+  (sl_last r <= pk_started p)%Z ->
+  (0 <= sl_last r)%Z -> (0 <= sl_rcnt r)%Z ->
+  (b_now s <= MaxInt64)%Z ->
+  (has_newsc (snd (detectUnresponsive s p oc)) = true <->
+   (c_ucalls c <= (sl_de r + 1) mod W32)%Z /\ (sl_last r < b_now s - window_ns c (sl_rcnt r))%Z /\
+   sl_refreshing r = false).
+Proof. exact refresh_iff. Qed.
+Print Assumptions C07_refresh_iff.
+
+(* 0 <= lastResp <= now, 0 <= refreshCnt and 0 <= now hold in every state of every run *)
+Theorem C07_clock_ok : forall raw ops, Forall clock_ok (run_states raw init_bal ops).
+Proof. exact reachable_clock_ok. Qed.
+Print Assumptions C07_clock_ok.
+
+(* so on histories one hypothesis is left: the clock of the state fits an int64 *)
+Theorem C07_refresh_iff_run : forall raw ops j oc rk order s' outs rt ub p r c,
+  let s := run_state raw init_bal ops in
+  full_step raw s (OpDone j oc rk) order = (s', outs, rt, ub) -> rt <> RBadOp ->
+  nth_error (b_picks s) j = Some p -> get_slot s (pk_slot p) = Some r ->
+  b_cfg s = Some c -> b_undet s = true ->
+  client_dl (b_now s) oc (pk_deadline p) = true -> (sl_last r <= pk_started p)%Z ->
+  (b_now s <= MaxInt64)%Z ->
+  (has_newsc outs = true <->
+   (c_ucalls c <= (sl_de r + 1) mod W32)%Z /\ (sl_last r < b_now s - window_ns c (sl_rcnt r))%Z /\
+   sl_refreshing r = false).
+Proof. exact refresh_iff_run. Qed.
+Print Assumptions C07_refresh_iff_run.
+
+(* the arithmetic behind it: the model's saturating int64 window decides "the intended
+   window has elapsed" exactly; the monitor's test is that comparison *)
+Theorem C07_window_exact : forall s r c,
+  b_cfg s = Some c -> (0 < c_ums c)%Z -> (0 <= sl_rcnt r)%Z -> (0 <= sl_last r)%Z -> (b_now s <= MaxInt64)%Z ->
+  (sl_last r <? b_now s - unresponsiveWindow s r)%Z = window_elapsed c (sl_rcnt r) (sl_last r) (b_now s).
+Proof. exact window_model_elapsed_cfg. Qed.
+Print Assumptions C07_window_exact.
+
+Theorem C07_window_elapsed_spec : forall e rcnt last now,
+  (0 <= last)%Z -> (now <= Int64Max)%Z -> (0 < c_ums e)%Z -> (0 <= rcnt)%Z ->
+  window_elapsed e rcnt last now = (last <? now - window_ns e rcnt)%Z.
+Proof. exact window_elapsed_spec. Qed.
+Print Assumptions C07_window_elapsed_spec.
+
 (* state-level theorems (InvC07.v) *)
 Print Assumptions refresh_iff.
 Print Assumptions refresh_iff_no_wrap.
+Print Assumptions refresh_iff_clock_ok.
 Print Assumptions one_replacement.
 Print Assumptions one_replacement_done.
 Print Assumptions old_serves_until_swap.
@@ -164,13 +220,40 @@ Example c07_decalls_wrap :
   mon_from P07 wrap_raw wrap_ms (observe (wrap_state 4294967295)) (step 4294967295%Z) = true.
 Proof. exact de_wrap_step. Qed.
 
-(* known finding R2: outside window_in_range the uint32 window wraps (50 min, 11 refreshes) *)
-Example c07_window_wrap :
+(* finding R2, fixed: on the witnesses of the former counterexample (50 min threshold,
+   11 refreshes, 2^11 * 3000000 ms does not fit a uint32) the window is the intended one *)
+Example c07_window_no_wrap :
   let c := mkConfig 1 4 100 false 3000000 1 false [] in
   let s := set_cfg init_bal (Some c) in
   let r := mkSlot 0 0 0 0 0 false 11 in
   window_in_range c (sl_rcnt r) = false /\
   (2 ^ sl_rcnt r * c_ums c >= W32)%Z /\
-  unresponsiveWindow s r = 1849032704000000%Z /\ window_ns c (sl_rcnt r) = 6144000000000000%Z /\
-  unresponsiveWindow s r <> window_ns c (sl_rcnt r).
-Proof. exact window_wrap_refuted. Qed.
+  unresponsiveWindow s r = 6144000000000000%Z /\ window_ns c (sl_rcnt r) = 6144000000000000%Z /\
+  unresponsiveWindow s r = window_ns c (sl_rcnt r).
+Proof. exact window_no_wrap_fixed. Qed.
+
+(* ... no refresh before the intended window has elapsed; one right after *)
+Example c07_window_no_early_refresh :
+  let c := mkConfig 1 4 100 false 3000000 1 false [] in
+  let st now := mkBal (Some c) 1 0 0 0 Idle [] [] [(0%N, Ready)] [(0%N, 0%nat)] [mkSlot 0 0 1 0 0 false 11]
+                 0 [] true (PSnap [0%nat]) [PSnap [0%nat]]
+                 [mkPick 0 5 (Some 6%Z) false BOUND 0 false true PPlaced] now 1 false false [] in
+  let p := mkPick 0 5 (Some 6%Z) false BOUND 0 false true PPlaced in
+  (b_now (st 2000000000000000%Z) - window_ns c 11 < 0)%Z /\
+  snd (detectUnresponsive (st 2000000000000000%Z) p DDeadlineClient) = [] /\
+  snd (detectUnresponsive (st 6144000000000000%Z) p DDeadlineClient) = [] /\
+  snd (detectUnresponsive (st 6144000000000001%Z) p DDeadlineClient) = [ONewSC 1 1; OConnect 1].
+Proof. exact window_no_early_refresh_fixed. Qed.
+
+(* saturation at MaxInt64 (2^32 - 1 ms threshold; 62, 63 and 2^32 - 1 refreshes) *)
+Example c07_window_saturates :
+  let c := mkConfig 1 4 100 false 4294967295 1 false [] in
+  let s := set_cfg init_bal (Some c) in
+  let r k := mkSlot 0 0 0 0 0 false k in
+  unresponsiveWindow s (r 62%Z) = MaxInt64 /\
+  unresponsiveWindow s (r 63%Z) = MaxInt64 /\
+  unresponsiveWindow s (r 4294967295%Z) = MaxInt64 /\
+  unresponsiveWindow s (r 11%Z) = window_ns c 11 /\ (window_ns c 11 < MaxInt64)%Z /\
+  unresponsiveWindow s (r 12%Z) = MaxInt64 /\ (MaxInt64 < window_ns c 12)%Z /\
+  window_elapsed c 4294967295 0 Int64Max = false /\ window_elapsed c 62 0 Int64Max = false.
+Proof. exact window_saturates. Qed.
